@@ -24,7 +24,7 @@ import (
 	"verifh/corpus"
 	"verifh/ev"
 	"verifh/gen/all"
-	kst "verifh/gen/ks/ks/t"
+	kst "verifh/gen/ks/ks/kt"
 	"verifh/model"
 	"verifh/refcodec"
 )
@@ -91,11 +91,11 @@ func poison(set *bridge.Set) {
 	if set.Name != "ks" {
 		return
 	}
-	bad := model.Simplest(set.Schema, corpus.R("ks.t.Containers"), 0)
+	bad := model.Simplest(set.Schema, corpus.R("ks.kt.Containers"), 0)
 	bad.Fields["ms"] = &model.Value{Kind: model.KMap, Entries: map[string]*model.Value{"LEAKED-KEY-1": model.String("LEAKED-VALUE-1"), "LEAKED-KEY-2": model.String("LEAKED-VALUE-2")}}
 	bad.Fields["mc"] = &model.Value{Kind: model.KMap, Entries: map[string]*model.Value{"a": {Kind: model.KEnum, S: "RED"}, "zz": {Kind: model.KEnum, EnumOrd: 99}}}
 	bad.Fields["mu"] = &model.Value{Kind: model.KMap, Entries: map[string]*model.Value{"LEAKED-U": {Kind: model.KUnion}}}
-	p, err := codec.BuildGo(set, "ks.t.Containers", bad)
+	p, err := codec.BuildGo(set, "ks.kt.Containers", bad)
 	if err != nil {
 		return
 	}
@@ -307,13 +307,13 @@ func queryParamsAndBatchIds(run *ev.Run, rng *rand.Rand) {
 		var ckeys []*kst.CK
 		cseen := map[string]bool{}
 		for len(ckeys) < k {
-			v := g.Value(corpus.R("ks.t.CK"), 0)
+			v := g.Value(corpus.R("ks.kt.CK"), 0)
 			id := model.Show(v.Fields["a"]) + "|" + model.Show(v.Fields["b"])
 			if cseen[id] {
 				continue
 			}
 			cseen[id] = true
-			p, err := codec.BuildGo(ksSet, "ks.t.CK", v)
+			p, err := codec.BuildGo(ksSet, "ks.kt.CK", v)
 			if err != nil {
 				break
 			}
